@@ -3,5 +3,5 @@ CONSTANTS
   Mode = "struct"
   FreeLen = 3
   MaxDev = 2
-INVARIANTS TypeOK FaultAgrees LaxAdmitsMore StrictWithinHistorical Unambiguous AcceptedShape KindsDisjoint IPv4WithinDns Emit
+INVARIANTS TypeOK FaultAgrees LaxAdmitsMore StrictWithinHistorical Unambiguous AcceptedShape KindsDisjoint IPv4WithinDns StrayRefused Emit
 CHECK_DEADLOCK FALSE
